@@ -213,6 +213,15 @@ def build(entry, ch, acc, max_faults=4, shapes=None, flavor='plain', avoid='~*:^
                 s.vals[ei][ci] = (s.vals[ei][ci] + hv) if exp['kind'] != 'not-in-code-list' else hv
                 exp['value'] = s.vals[ei][ci]
                 exp['hostile'] = True
+        if hostile_values and exp.get('kind') == 'unknown-segment' and ch.chance(.6):
+            # the identifier of an unknown segment is echoed too (AK301/IK301): give it a character that is a delimiter of the
+            # acknowledgement but plain data under the source's delimiters
+            s = doc.segs[exp['seg_index']]
+            if isinstance(s, faults._Fake):
+                c = ch.choice([x for x in ':*~^' if x not in avoid] or ['Z'])
+                s._id = 'Z' + c + 'Z'
+                exp['seg_id'] = s._id
+                exp['hostile'] = True
         exps.append(exp)
     if malformed and ch.chance(malformed):
         cands = faults.candidates(doc, 'junk-segment')
@@ -262,7 +271,7 @@ def build_mixed(ch, acc, with_ack_groups=True, **kw):
 
 
 ENVELOPE_FAULTS = ['se-count', 'se-id', 'ge-count', 'ge-id', 'iea-count', 'iea-id', 'gs-date', 'gs-time', 'st-dup', 'gs-dup', 'gs-code',
-                   'se-count-alpha', 'st-id-long', 'se-count', 'st-dup', 'st-many-codes', 'st-many-codes', 'st-many-codes', 'drop-trailer', 'st-dup-far', 'gs-dup-far', 'trailer-and-neighbour', 'trailer-and-neighbour']
+                   'se-count-alpha', 'st-id-long', 'se-count', 'st-dup', 'st-many-codes', 'st-many-codes', 'st-many-codes', 'drop-trailer', 'st-dup-far', 'gs-dup-far', 'trailer-and-neighbour', 'trailer-and-neighbour', 'envelope-extra-element', 'envelope-extra-element', 'stray-after-trailer', 'stray-after-trailer']
 
 
 def envelope_fault(doc, ch):
@@ -304,6 +313,21 @@ def _envelope_fault(doc, ch):
                         break
                 return kind
         return None
+    elif kind == 'envelope-extra-element':
+        # one element more than the header / trailer defines
+        s_ = pick(ch.choice(['ST', 'SE', 'ST', 'SE', 'GS', 'GE', 'IEA']))
+        s_.vals = list(s_.vals) + [['X']]
+    elif kind == 'stray-after-trailer':
+        # a body segment between SE and the next ST / GE, or between GE and the next GS / IEA
+        c = [i for i, s_ in enumerate(doc.segs) if s_.id in ('SE', 'SE', 'GE')]
+        if not c:
+            return None
+        i = c[ch.integer(0, len(c) - 1)]
+        body = [s_ for s_ in doc.segs if s_.id not in ('ISA', 'GS', 'ST', 'SE', 'GE', 'IEA', 'HL', 'LX')]
+        if not body:
+            return None
+        src = body[ch.integer(0, len(body) - 1)]
+        doc.segs.insert(i + 1, docgen.GSeg(src.node, [list(x) for x in src.vals], list(doc.segs[i].chain)))
     elif kind == 'trailer-and-neighbour':
         # an element error on a trailer and one at the same element position of the segment right before it
         c = [i for i, s_ in enumerate(doc.segs) if s_.id == 'SE' and i > 0 and doc.segs[i - 1].id not in ('ST', 'ISA', 'GS')]
@@ -390,6 +414,18 @@ def _envelope_fault(doc, ch):
                 return kind
         return None
     return kind
+
+
+def tag_structural(case, out):
+    """Failures on inputs whose set/group structure itself is broken are kept apart, in buckets of their own: a set or group left
+    unterminated in mid-file, a body segment standing between two sets or after a group trailer."""
+    fl = (case.get('meta') or {}).get('faults', [])
+    for fault, tag in (('env:drop-trailer', 'unterminated-set-or-group'), ('env:stray-after-trailer', 'segment-outside-set')):
+        if fault in fl:
+            out.failures = [(b_ + '[%s]' % tag, d_) for b_, d_ in out.failures]
+            out.classes.append(tag)
+            break           # one tag: the first that applies
+    return out
 
 
 def meta_of(doc, exps):
